@@ -204,8 +204,7 @@ class Conds:
                             tr = self.prov.call_tree(d[1])
                         lits |= self._bool_literals(tr, truth, depth + 1)
                     sets.append(lits)
-                common = set.intersection(*sets) if sets else set()
-                return common
+                return join_literal_sets(sets)
         return self.edge_literals(a, s, depth)
 
     def _copy_root(self, l):
@@ -222,12 +221,12 @@ class Conds:
             break
         return l
 
-    def _is_const_def(self, d):
-        return self._const_bool(d) is not None
+    def _is_const_def(self, d3):
+        return self._const_bool(d3[2]) is not None
 
     def _const_bool(self, d):
-        if d[2][0] == "assign" and d[2][1]["k"] == "use":
-            v = mir.op_const(d[2][1]["op"])
+        if d[0] == "assign" and d[1]["k"] == "use":
+            v = mir.op_const(d[1]["op"])
             if isinstance(v, bool):
                 return v
         return None
@@ -249,6 +248,31 @@ class Conds:
         if depth == 0:
             self._lits[block] = fs
         return fs
+
+
+def join_literal_sets(sets):
+    """Literals implied by a disjunction of literal sets: plain literals must occur in every set; variant
+    literals on the same path are joined (union of the variant sets) when every set constrains that path."""
+    if not sets:
+        return set()
+    common = set.intersection(*[set(s) for s in sets])
+    by_path = []
+    for s in sets:
+        m = {}
+        for l in s:
+            if l[0] == "variant":
+                key = (l[1], l[3])
+                m[key] = m[key] & l[2] if key in m else l[2]
+        by_path.append(m)
+    keys = set(by_path[0].keys())
+    for m in by_path[1:]:
+        keys &= set(m.keys())
+    for key in keys:
+        u = frozenset()
+        for m in by_path:
+            u |= m[key]
+        common.add(("variant", key[0], u, key[1]))
+    return common
 
 
 _CONDS = {}
